@@ -104,7 +104,9 @@ func (s *Session) readHandshake() (handshakeData, error) {
 				return data, err
 			}
 		case strings.HasPrefix(line, ";PQ"): // Secure password challenge
-			data.SecureChallenge = line[5:]
+			if len(line) > 5 {
+				data.SecureChallenge = line[5:]
+			}
 
 		case strings.HasSuffix(line, ">"): // Prompt
 			return data, nil
